@@ -261,8 +261,22 @@ class LoopModel:
             env[self.index[0]] = 0 if at == "elem" else bound
         return env
 
+    def pre_env(self, oracle):
+        """values of the locals on first arrival at the loop entry (the code before the loop interpreted once);
+        a rule overrides the locals whose value it enumerates"""
+        it = Interp(self.fn, oracle)
+        try:
+            r = it.run(stop_blocks={self.entry})
+        except Unknown:
+            return {}
+        if r != ("stop", self.entry):
+            return {}
+        return {k: v for k, v in it.env.items() if not (isinstance(v, tuple) and v and v[0] in ("iter", "range", "opaque"))}
+
     def step(self, oracle, env=None, at="elem", max_steps=400):
         it = Interp(self.fn, oracle)
+        if self.entry != self.fn.entry:
+            it.env.update(self.pre_env(oracle))
         it.env.update(self.env_for(at, it))
         it.env.update(env or {})
         res = it.run(start=self.entry, stop_blocks={self.entry}, max_steps=max_steps)
